@@ -4,10 +4,20 @@ Property theorems only (helper lemmas are `private`).
 Model: DTML/Batch.lean (`opt`, `window`, `links`, `follow`, `followPrev`).
 -/
 import DTML.Batch
+import DTML.GenCode
 import DTML.Basic
 set_option linter.unusedVariables false
 namespace DTML.Props.C11
 open DTML DTML.Batch
+
+/-- **The model is what the source says**: `GenCode.optGen` is regenerated on every run by translating the statements
+of `DT_InSV.opt` in /repo (assignments, if / elif / else, `try: sequence[i] except: …` probes, `len(sequence)`); it
+computes the same function as the hand-written `Batch.opt`, about which the theorems below are stated.  A change of
+`opt()` in the source changes the left-hand side and this theorem stops checking. -/
+theorem gen_opt_is_model (start end_ size orphan : Int) (s : Seq) :
+    GenCode.optGen start end_ size orphan s = opt start end_ size orphan s := by
+  simp only [GenCode.optGen, opt]
+  grind
 
 /-- The displayed window is inside the sequence: `1 ≤ start ≤ end ≤ length`,
 for every parameter tuple (given or absent = 0, negative, oversized). -/
